@@ -182,6 +182,7 @@ func runKeepAliveExecution(t *testing.T, seed int64, log *traceLog) {
 				"nonce_age_s": nonceAge, "t": sec()})
 		}
 		chatty := true
+		deafUntil := 0
 		phaseEnd := 0
 		closed := false
 		for sec() < horizon && !closed {
@@ -236,9 +237,35 @@ func runKeepAliveExecution(t *testing.T, seed int64, log *traceLog) {
 
 				break
 			}
+			// one execution in eight: an application that only sends for more than an hour while 1500 relayed
+			// datagrams sit unread in its socket (more than the queue holds); the relay must stay alive all the same
+			if seed%8 == 3 && deafUntil == 0 && sec() > 500 && len(written) > 0 && !reopen {
+				for k := range written {
+					for i := 0; i < 1500; i++ {
+						_, _ = w.peers[k].WriteTo([]byte(fmt.Sprintf("unread%d|", i)), relayAddr)
+						if i%100 == 99 {
+							synctest.Wait()
+						}
+					}
+
+					break
+				}
+				synctest.Wait()
+				deafUntil = sec() + 4300
+				log.add(map[string]any{"e": "Note", "what": "1500 datagrams left unread", "t": sec()})
+			}
+			if deafUntil > 0 && sec() >= deafUntil { // the application finally reads what is there
+				deafUntil = -1
+				for {
+					_ = relay.SetReadDeadline(time.Now().Add(time.Millisecond))
+					if _, _, rerr := relay.ReadFrom(make([]byte, 2000)); rerr != nil {
+						break
+					}
+				}
+			}
 			if chatty {
 				k := peerKeys[rng.Intn(len(peerKeys))]
-				if rng.Intn(2) == 0 || !written[k] {
+				if rng.Intn(2) == 0 || !written[k] || deafUntil > 0 {
 					probeOut(k)
 				} else {
 					probeIn(k)
@@ -257,7 +284,9 @@ func runKeepAliveExecution(t *testing.T, seed int64, log *traceLog) {
 				for _, k := range peerKeys {
 					if written[k] {
 						probeOut(k)
-						probeIn(k)
+						if deafUntil <= 0 {
+							probeIn(k)
+						}
 					}
 				}
 			}
